@@ -4,7 +4,7 @@ from .. import model
 from . import lattice as L
 
 CLAIM = dict(
-   text="Coq theorems about the executable model of typeorder (Model/Ty.v): reflexivity, coincidence with subclassing and transitivity on classes, generic aliases below their origin and argument-wise, unions above / intersections below each member, Literal/Dependent below their bound -- all for unbounded nesting; mirror symmetry proved on the decidable domain msym (no hook-vs-hook comparison), refuted outside it by vm_compute witnesses (KF-06). KF-07 (two spellings of Exactly[A] unequal) and KF-24 (tuple[...] unrelated to tuple) were repaired in /repo with fix: commits and the theorems now cover them. The model is tied to /repo on every run by running implementation and extracted model on all ordered pairs of a generated type corpus; every asymmetric pair must fall in a known-finding class and behave as the model predicts.",
+   text="Coq theorems about the executable model of typeorder (Model/Ty.v): reflexivity, coincidence with subclassing and transitivity on classes, generic aliases below their origin and argument-wise, unions above / intersections below each member, Literal/Dependent below their bound -- all for unbounded nesting; mirror symmetry proved on the decidable domain msym (no hook-vs-hook comparison), refuted outside it by vm_compute witnesses (KF-06). KF-07 (two spellings of Exactly[A] unequal) and KF-24 (tuple[...] unrelated to tuple) were repaired in /repo with fix: commits and the theorems now cover them. The model is tied to /repo on every run by running implementation and extracted model on all ordered pairs of a generated type corpus; every asymmetric pair must fall in a known-finding class and behave as the model predicts; each world is swept a second time after one more abc.ABCMeta.register on the very class objects its types were built from -- the order must then follow the current subclass relation (nothing from the first sweep may be remembered).",
    note="Trusted: Coq kernel, extraction (ExtrOcamlBasic), OCaml driver, the hand-written model (validated by the correspondence), CPython's issubclass/hasattr (tables). No axioms (all theorems closed under the global context). Partial: full mirror symmetry is false of the code (known findings).",
    technique="Coq proof (induction on fuel over a nested inductive of types) + differential correspondence impl vs extracted model", design="6 C12")
 
@@ -85,11 +85,40 @@ def check_case(ctx, case, stats, samples):
         i, j = 0, min(1, n - 1)
         samples.append({"t1": encs[i], "t2": encs[j], "impl": [ords[i][j], ords[j][i]], "model": [mord[i][j], mord[j][i]], "msym": msym[i][j]})
 
+    # 1b. the same world after one more virtual-subclass registration on the same class objects: the order to follow is
+    # the current subclass relation (nothing computed for the first sweep may be remembered)
+    late = L.late_registration(case, ctx.rng, objs, w)
+    if late is not None:
+        ords2, _subs2, (ai, ri) = late
+        res2 = model.run_cases([L.model_case(w, case)])[0]
+        stats["late_registrations"] += 1
+        first = None
+        for i in range(n):
+            for j in range(n):
+                stats["evaluations"] += 1
+                if ords2[i][j] != res2[0][i][j] and first is None:
+                    first = (i, j)
+        if first is not None:
+            i, j = first
+            ctx.violation(f"after registering C{ri} as a virtual subclass of C{ai}: typeorder {ords2[i][j]} != model {res2[0][i][j]} (before the registration {ords[i][j]})",
+                          dict(L.pair_case(case, i, j), late_registration=[ai, ri]), kind="correspondence")
+            for i in range(n):
+                for j in range(n):
+                    if encs[i][0] == 0 and encs[j][0] == 0:
+                        ci, cj = w.classes[encs[i][1]], w.classes[encs[j][1]]
+                        exp = 0 if ci is cj else -1 if issubclass(ci, cj) else 1 if issubclass(cj, ci) else 2
+                        if issubclass(ci, cj) and issubclass(cj, ci) and ci is not cj:
+                            continue
+                        if ords2[i][j] != exp:
+                            ctx.violation(f"after registering C{ri} as a virtual subclass of C{ai} the order on plain classes {ords2[i][j]} differs from subclassing {exp}",
+                                          dict(L.pair_case(case, i, j), late_registration=[ai, ri]))
+                            return
+
 
 def run(ctx):
     stats = collections.Counter()
     stats = {"evaluations": 0, "worlds": 0, "worlds_partial_order": 0, "pairs": 0, "in_domain": 0, "asym_known": 0,
-             "structural_checks": 0, "distinct": set(), "nontrivial": set(), "outcomes": collections.Counter()}
+             "structural_checks": 0, "distinct": set(), "nontrivial": set(), "outcomes": collections.Counter(), "late_registrations": 0}
     samples = []
     n_worlds = 10 if ctx.quick() else 400
     cases = []
@@ -117,13 +146,18 @@ def run(ctx):
             "samples": samples, "worlds": stats["worlds"], "worlds_satisfying_theorem_hypotheses": stats["worlds_partial_order"],
             "unordered_pairs": stats["pairs"], "pairs_in_proved_domain_msym": stats["in_domain"],
             "asymmetric_pairs_attributed_to_known_findings": stats["asym_known"],
-            "structural_relation_checks": stats["structural_checks"], "outcome_histogram": dict(stats["outcomes"]),
+            "structural_relation_checks": stats["structural_checks"], "worlds_swept_again_after_a_late_virtual_subclass_registration": stats["late_registrations"], "outcome_histogram": dict(stats["outcomes"]),
             "vm_compute_crosscheck_cases": cross, "traces_validated_against_impl": stats["evaluations"]}
 
 
 def replay(ctx, payload):
     case = payload["case"]
     w, objs, ords, subs = L.eval_impl(case)
+    if case.get("late_registration"):
+        ai, ri = case["late_registration"]
+        w.user[ai].register(w.user[ri])
+        n = len(objs)
+        ords = [[L.impl_ord(objs[a], objs[b]) for b in range(n)] for a in range(n)]
     res = model.run_cases([L.model_case(w, case)])[0]
     print(json.dumps({"impl_typeorder": ords, "model_typeorder": res[0], "msym": res[2]}))
     n = len(objs)
